@@ -110,7 +110,8 @@ class C20(Prop):
                   'cancelled child counts as raising CancelledError, cancelling the gather cancels its children), not verified; the '
                   'correspondence with CPython 3.12 on <= 5 tasks x outcome patterns x semaphore sizes 1..3 x cancellation points is what '
                   'validates that. In the model a cancelled body ends in the step that cancels it; bodies whose clean-up takes several '
-                  'loop iterations are exercised on the real code only (extra checks: the clean-up clauses of the property, no model). '
+                  'loop iterations or last across harness steps (released by an op), and an online body that submits more work, are exercised '
+                  'on the real code only (extra checks: the property itself on the real run, no model). '
                   'One genuine defect is open (F4: the permit WithoutSemaphore does not re-acquire on error); four others found by this '
                   'check were repaired.')
     budget = {'quick': 2500, 'thorough': 30000}
@@ -124,7 +125,9 @@ class C20(Prop):
     trusted = ['harness/aloop.py deterministic event loop (real asyncio.SelectorEventLoop with a virtual clock; ready queue never permuted)',
                'a loop task factory records the tasks the helpers create (in creation order = submission order); sema._value is read '
                'from the real asyncio.Semaphore (for bounded_gather the semaphore it creates is captured by a recording subclass)']
-    assumptions = ['one event loop thread; code is atomic between awaits', 'the helper itself is not cancelled from outside',
+    assumptions = ['one event loop thread; code is atomic between awaits',
+                   'the caller is not cancelled while the helper is already unwinding from an earlier exception (a second fault during '
+                   'the clean-up)',
                    'task bodies have no awaits in their clean-up (a cancelled body ends in the step that cancels it)',
                    'asyncio primitives behave as documented for CPython 3.12']
 
@@ -258,20 +261,32 @@ class C20(Prop):
             running = [0, 0]      # current, peak during this step
 
             slow = set(c.get('slow', ()))
+            gated = set(c.get('gated', ()))      # bodies whose clean-up after a cancellation blocks until op ['u', i]
+            outs = [list(o) for o in outs]       # the online body may submit more work (op ['bc']): grows
 
             def mk(i):
                 async def pf():
                     state[i] = 'R'
                     running[0] += 1
                     running[1] = max(running[1], running[0])
+                    own = False
                     try:
                         v = await s.gate(('t', i))
                         if isinstance(v, type) and issubclass(v, asyncio.CancelledError):
+                            own = True
                             raise asyncio.CancelledError()     # scripted outcome `c`: the body itself ends in CancelledError
                         state[i] = f'ok:{v}'
                         return v
                     except asyncio.CancelledError:
-                        if i in slow:                           # clean-up that needs a few more loop iterations
+                        if i in gated and not own:              # clean-up that lasts until the harness lets it finish
+                            state[i] = 'C'
+                            g = s.gate(('u', i))
+                            while not g.done():
+                                try:
+                                    await asyncio.shield(g)
+                                except asyncio.CancelledError:
+                                    continue
+                        if i in slow and not own:               # clean-up that needs a few more loop iterations
                             state[i] = 'C'
                             try:
                                 for _ in range(4):
@@ -289,6 +304,7 @@ class C20(Prop):
             pfs = [mk(i) for i in range(k)]
             helper = {'state': 'active', 'p': 0}
             pool_tasks = []
+            body_gate = [0]
 
             def canon_exc(e):
                 if isinstance(e, asyncio.CancelledError):
@@ -309,7 +325,21 @@ class C20(Prop):
                 if fl == 'on':
                     async with U.OnlineBoundedGather2(sema) as pool:
                         pool_tasks.extend(pool.call(pf) for pf in pfs)
-                        await s.gate('body')
+                        while True:
+                            cmd = await s.gate(('body', body_gate[0]))
+                            body_gate[0] += 1
+                            if cmd != 'call':
+                                break
+                            # the body submits one more piece of work (raises PoolShutdownError if the pool is shut down)
+                            j = len(state)
+                            state.append('Q')
+                            outs.append(['r', 77])
+                            try:
+                                pool_tasks.append(pool.call(mk(j)))
+                            except BaseException:
+                                state.pop()
+                                outs.pop()
+                                raise
                     res = []
                     for t in pool_tasks:
                         res.append('X' if (t.cancelled() or t.result() is None) else canon_slot(t.result()))
@@ -342,7 +372,8 @@ class C20(Prop):
             body_open = [False]
 
             def status(i):
-                if state[i] == 'Q' and 1 + i < len(created) and created[1 + i].done():
+                t = (pool_tasks[i] if i < len(pool_tasks) else None) if fl == 'on' else (created[1 + i] if 1 + i < len(created) else None)
+                if state[i] == 'Q' and t is not None and t.done():
                     return 'X'
                 return state[i]
 
@@ -351,7 +382,7 @@ class C20(Prop):
                 if h == 'active' and body_open[0]:
                     h = 'exiting'
                 free = semas[0]._value if semas else '-'
-                ln = f"s={','.join(status(i) for i in range(k))} f={free} h={h} p={helper['p']} m={running[1]}"
+                ln = f"s={','.join(status(i) for i in range(len(state)))} f={free} h={h} p={helper['p']} m={running[1]}"
                 return ln
 
             out = ['ok']
@@ -361,7 +392,7 @@ class C20(Prop):
                 running[1] = running[0]
                 if op[0] == 'f':
                     i = op[1]
-                    if not (0 <= i < k) or state[i] != 'R':
+                    if not (0 <= i < len(state)) or state[i] != 'R':
                         out.append('err')
                         continue
                     kind, v = outs[i][0], outs[i][1]
@@ -371,6 +402,16 @@ class C20(Prop):
                         s.open(('t', i), value=asyncio.CancelledError)
                     else:
                         s.open(('t', i), exc=TaskError(v))
+                elif op[0] == 'u':
+                    if not (0 <= op[1] < len(state)) or state[op[1]] != 'C':
+                        out.append('err')
+                        continue
+                    s.open(('u', op[1]))
+                elif op[0] == 'bc':
+                    if fl != 'on' or body_open[0] or helper['state'] != 'active':
+                        out.append('err')
+                        continue
+                    s.open(('body', body_gate[0]), value='call')
                 elif op[0] == 'x':
                     if helper['state'] != 'active':
                         out.append('err')      # the caller is no longer inside the helper
@@ -382,10 +423,13 @@ class C20(Prop):
                         continue
                     body_open[0] = True
                     if op[1] == 'r':
-                        s.open('body', value=None)
+                        s.open(('body', body_gate[0]), value=None)
                     else:
-                        s.open('body', exc=TaskError(op[2]))
+                        s.open(('body', body_gate[0]), exc=TaskError(op[2]))
                 out.append(line())
+            for i in range(len(state)):          # let pending clean-ups end so that the loop can be closed
+                if state[i] == 'C':
+                    s.open(('u', i))
             return out
         finally:
             asyncio.Semaphore = real_sema
@@ -434,6 +478,12 @@ class C20(Prop):
                 continue
             if opi >= 0:
                 happened.append(opi)
+            if opi >= 0 and c['ops'][opi][0] == 'x' and not finished_before:
+                prev = {'fl': fl, 'entry': c['entry'], 'n': n, 'outs': outs, 'ops': [c['ops'][j] for j in happened[:-1]]}
+                if self._first_err(prev, len(prev['ops'])) is not None:
+                    # the caller is cancelled while the helper is already unwinding from an earlier exception (only possible when a
+                    # clean-up lasts across steps): a second fault during the clean-up is outside the property's quantifier
+                    return None
             d = self._parse(ln)
             at = 'after start' if opi < 0 else f"after op {opi} {c['ops'][opi]}"
             # running_le_bound: peak number of task bodies inside pf() during the step
@@ -457,6 +507,7 @@ class C20(Prop):
             if h.startswith('ret:'):
                 slots = [x for x in h[4:].split(';') if x != '']
                 want = ['ok:%d' % o[1] if o[0] == 'r' else 'X' if o[0] == 'c' else 'err:%d' % o[1] for o in outs]
+                want += ['ok:77'] * (len(d['s']) - k)       # work the online body submitted later (op bc)
                 if slots != want:
                     return f'results_in_submission_order: {at}: returned {slots}, submitted outcomes in order are {want}'
             if finished and not finished_before:
@@ -517,7 +568,56 @@ class C20(Prop):
             msg = self.oracle(c, self.impl(c))
             if msg:
                 fails.append((c, msg))
+        # clean-ups that last across harness steps (blocked until op ['u', i]) interleaved with everything else; for the online pool
+        # the body may also submit more work (op ['bc'], PoolShutdownError if the pool was shut down meanwhile), end or be cancelled
+        # at any point — e.g. a task fails while the body is still running and the body leaves during the siblings' clean-up
+        boundary = [
+            # a task fails while the body is still running; the body leaves (normally / after a further call that gets
+            # PoolShutdownError / with its own exception) while the cancelled sibling is still cleaning up; then the clean-up ends
+            {'fl': 'on', 'entry': 'hold', 'n': 2, 'outs': [['e', 11], ['r', 20]], 'ops': [['f', 0], ['b', 'r', 0], ['u', 1]], 'gated': [1]},
+            {'fl': 'on', 'entry': 'hold', 'n': 3, 'outs': [['e', 11], ['r', 20]], 'ops': [['f', 0], ['bc'], ['u', 1]], 'gated': [1]},
+            {'fl': 'on', 'entry': 'hold', 'n': 2, 'outs': [['e', 11], ['r', 20]], 'ops': [['f', 0], ['b', 'e', 99], ['u', 1]], 'gated': [1]},
+            # the body submits more work to a live pool, which is waited for at the exit
+            {'fl': 'on', 'entry': 'hold', 'n': 3, 'outs': [['r', 10], ['r', 20]], 'ops': [['bc'], ['f', 2], ['f', 0], ['b', 'r', 0], ['f', 1]],
+             'gated': [1]},
+            # cancel_on_error waits for a lasting clean-up before it raises
+            {'fl': 'rc', 'entry': 'hold', 'n': 2, 'outs': [['e', 11], ['r', 20]], 'ops': [['f', 0], ['u', 1]], 'gated': [1]},
+        ]
+        for c in boundary:
+            self._slow_cases += 1
+            msg = self.oracle(c, self.impl(c))
+            if msg:
+                fails.append((c, msg))
+        for _ in range(1500 if tier == 'quick' else 15000):
+            c = self._random_gated_case(rng)
+            self._slow_cases += 1
+            msg = self.oracle(c, self.impl(c))
+            if msg:
+                fails.append((c, msg))
         return fails
+
+    def _random_gated_case(self, rng):
+        fl = rng.choice(['on', 'on', 'on', 'rc', 'rx', 'rf'])
+        n = rng.choice([1, 2, 2, 3, 3])
+        k = rng.choice([1, 2, 2, 3, 3, 4])
+        outs = []
+        for i in range(k):
+            r = rng.random()
+            outs.append(['e', 10 * (i + 1) + 1] if r < 0.35 else ['c', 0] if r < 0.45 else ['r', 10 * (i + 1)])
+        gated = sorted(rng.sample(range(k), rng.randint(1, k)))
+        ops = [['f', i] for i in range(k)] + [['u', i] for i in gated]
+        if fl == 'on':
+            ops.append(['b', 'e' if rng.random() < 0.3 else 'r', 99])
+            for _ in range(rng.choice([0, 0, 1, 2])):
+                ops.append(['bc'])
+            if rng.random() < 0.5:
+                ops += [['f', k], ['u', k]]
+        if rng.random() < 0.25:
+            ops.append(['x'])
+        rng.shuffle(ops)
+        if rng.random() < 0.5:
+            ops += [['u', i] for i in gated] + [['f', i] for i in range(k)]
+        return {'fl': fl, 'entry': 'hold', 'n': n, 'outs': outs, 'ops': ops, 'gated': gated}
 
     def extra_coverage(self):
         return {'slow_cleanup_cases': getattr(self, '_slow_cases', 0)}
@@ -539,8 +639,9 @@ class C20(Prop):
 
     @staticmethod
     def _drop_slow(c, i):
-        if 'slow' in c:
-            c['slow'] = [x - 1 if x > i else x for x in c['slow'] if x != i]
+        for key in ('slow', 'gated'):
+            if key in c:
+                c[key] = [x - 1 if x > i else x for x in c[key] if x != i]
         return c
 
     def _minimise(self, c, tag):
@@ -570,22 +671,23 @@ class C20(Prop):
                 if attempt(dict(cur, ops=cur['ops'][:j] + cur['ops'][j + 1:])):
                     changed = True
                     break
-            if cur.get('slow'):
-                if attempt({k_: v_ for k_, v_ in cur.items() if k_ != 'slow'}):
-                    changed = True
-                else:
-                    for j in list(cur['slow']):
-                        if attempt(dict(cur, slow=[x for x in cur['slow'] if x != j])):
-                            changed = True
-                            break
+            for key in ('slow', 'gated'):
+                if cur.get(key) is not None and key in cur:
+                    if attempt({k_: v_ for k_, v_ in cur.items() if k_ != key}):
+                        changed = True
+                    else:
+                        for j in list(cur[key]):
+                            if attempt(dict(cur, **{key: [x for x in cur[key] if x != j]})):
+                                changed = True
+                                break
             for i in reversed(range(len(cur['outs']))):
-                ops = [[o[0], o[1] - 1] if (o[0] == 'f' and o[1] > i) else o for o in cur['ops'] if not (o[0] == 'f' and o[1] == i)]
+                ops = [[o[0], o[1] - 1] if (o[0] in ('f', 'u') and o[1] > i) else o for o in cur['ops'] if not (o[0] in ('f', 'u') and o[1] == i)]
                 if attempt(self._drop_slow(dict(cur, outs=cur['outs'][:i] + cur['outs'][i + 1:], ops=ops), i)):
                     changed = True
                     break
             if cur['n'] > 1:      # compound move: one permit less and one task less
                 for i in reversed(range(len(cur['outs']))):
-                    ops = [[o[0], o[1] - 1] if (o[0] == 'f' and o[1] > i) else o for o in cur['ops'] if not (o[0] == 'f' and o[1] == i)]
+                    ops = [[o[0], o[1] - 1] if (o[0] in ('f', 'u') and o[1] > i) else o for o in cur['ops'] if not (o[0] in ('f', 'u') and o[1] == i)]
                     if attempt(self._drop_slow(dict(cur, n=cur['n'] - 1, outs=cur['outs'][:i] + cur['outs'][i + 1:], ops=ops), i)):
                         changed = True
                         break
